@@ -253,6 +253,10 @@ func validateBatchFileCounts(batchFiles *batchFiles) error {
 			return fmt.Errorf("number of create+recover+update operations[%d] doesn't match number of deltas[%d]",
 				expectedDeltaCount, len(batchFiles.Chunk.Deltas))
 		}
+	} else if coreCreateNum+coreRecoverNum > 0 {
+		// create and recover operations need deltas, which are referenced through the provisional index file
+		return fmt.Errorf("number of create+recover operations[%d] doesn't match number of deltas[0]: missing provisional index file URI",
+			coreCreateNum+coreRecoverNum)
 	}
 
 	return nil
